@@ -248,7 +248,7 @@ pub fn run(part: &mut Part) {
             alpha.push(Op::app(QA, Pos::Retry, Sz::S3));
             alpha.push(Op::Append { q: QA, pos: Pos::Auto, sizes: vec![] });
             let profiles = if TINY {
-                vec![prof("cursor + GC seeds x (A_roll + no-op shapes)", seeds, alpha, if q { 3 } else { 4 })]
+                vec![prof("cursor + GC seeds x (A_roll + no-op shapes)", seeds, alpha, if q { 3 } else { 5 })]
             } else {
                 vec![prof("cursor + GC seeds x (A_roll + no-op shapes)", seeds, alpha, if q { 2 } else { 3 })]
             };
@@ -394,8 +394,8 @@ pub fn run(part: &mut Part) {
             seeds.extend(gc_spill_seeds().into_iter().take(3));
             let profiles = if TINY {
                 vec![
-                    prof("empty x (A_roll+Persist)", vec![seed_empty()], alpha.clone(), if q { 3 } else { 4 }),
-                    prof("seeds x (A_roll+Persist)", seeds, alpha, if q { 2 } else { 3 }),
+                    prof("empty x (A_roll+Persist)", vec![seed_empty()], alpha.clone(), if q { 4 } else { 5 }),
+                    prof("seeds x (A_roll+Persist)", seeds, alpha, if q { 3 } else { 4 }),
                 ]
             } else {
                 let mut s = vec![seed_empty()];
@@ -446,7 +446,7 @@ pub fn run(part: &mut Part) {
             let seeds = vec![seed_ab(), seed_two_files(), seed_three_files(), seed_interleaved(), seed_gc_ready()];
             let mut alpha = a_write();
             alpha.push(Op::app(QA, Pos::Auto, Sz::XL));
-            let profiles = vec![prof("1-3 file seeds x (A_write + XL)", seeds, alpha, if q { 1 } else { 2 })];
+            let profiles = vec![prof("1-3 file seeds x (A_write + XL)", seeds, alpha, if q { 1 } else if TINY { 3 } else { 2 })];
             let descr: Vec<_> = profiles.iter().map(|p| p.describe()).collect();
             let stats = explore(&profiles, part.seed, |env, leaf| {
                 crate::fault::fault_leaf(env, leaf, false);
